@@ -152,7 +152,12 @@ def monitor(case, out):
     elif op == 42:
         d, d2 = args[0], v[1]
         if not abs(d2 - d) * 10 ** 9 < abs(d) + 10 ** 9:
-            return bad("seconds round trip changes the duration by %d (> 1e-9 |d| + 1)" % (d2 - d))
+            what_, payload = bad("seconds round trip changes the duration by %d units (allowed: less than %.6f)"
+                                 % (d2 - d, 1 + abs(d) * 1e-9))
+            if -10 ** 9 < d <= -2 ** 21:
+                # the class of C32_roundtrip_refuted (coq/Proofs/FloatConv.v KnownClass_C32_roundtrip)
+                payload["class"] = "KnownClass_C32_roundtrip"
+            return what_, payload
     elif op == 41:
         x = f64_of_bits(args[0])
         if x == x and x not in (float("inf"), float("-inf")):
@@ -334,6 +339,15 @@ def generate(c):
         cases.append(mk(40, d))
     for _ in range(nrand * 2):
         cases.append(mk(42, rand_signed(rng, 64)))
+    # the neighbourhood of the known-finding class (-10^9, -2^21]: inside (about 4% of the values fail), and
+    # the same magnitudes outside it (positive values, and negative values on both sides of the class limits)
+    for _ in range(nrand):
+        cases.append(mk(42, -rng.randrange(2 ** 21, 10 ** 9)))
+        cases.append(mk(42, rng.randrange(0, 3 * 10 ** 9)))
+        cases.append(mk(42, -rng.randrange(0, 2 ** 21)))
+        cases.append(mk(42, -rng.randrange(10 ** 9, 2 ** 34)))
+    for d in (-2100223, -2100222, -2097152, -2097151, -999999999, -10 ** 9, -10 ** 9 - 1, -999996415):
+        cases.append(mk(42, d))
     n_ntp = len(cases)
 
     # --- PTP
@@ -445,9 +459,9 @@ def main():
         "hand-written model of the time types (coq/Model/TimeTypes.v, FloatConv.v), release semantics (no overflow checks, "
         "debug_assert inactive); tied to the code by the correspondence above on every run",
         "the model is that of the repaired code (branch fix-c32); on the unrepaired tree the check reports i64::MIN inputs",
-        "float conversions: binary64 model on Coq's SpecFloat operations (no axioms), bit-exact against the code; the theorems "
-        "about them are partial (exact-arithmetic bound + evaluated boundary values), the 1e-9 bound / sign / saturation are "
-        "evaluated by the monitor on every float case",
+        "float conversions: binary64 model on Coq's SpecFloat operations (no axioms), bit-exact against the code; sign and "
+        "saturation of from_seconds are theorems on that model for all doubles; the 1e-9 round-trip bound is a theorem only "
+        "for exact arithmetic and is evaluated by the monitor on every round-trip case",
         "reading: division by the scalar zero (panics, as in statime-base's saturating_div) is outside 'scaling never panics'; "
         "to_bits_short/to_bits_time32 assert!(d >= 0) is outside by the statement's 'non-negative durations'",
     ]
@@ -464,14 +478,18 @@ MANIFEST = {
             "0 (C32_div); short/time32 wire formats round-trip within one format unit for non-negative in-range durations, saturate "
             "above, decode-encode is the identity, the only panic is the negative-duration assertion (C32_short_time32); "
             "PollInterval inc/dec/force_inc/as_duration stay in range (C32_poll); the same wrapping/saturating laws for the 128-bit "
-            "PTP types incl. saturating_div (C32_ptp). PARTIAL: the seconds round-trip bound (< 1e-9 |d| + 1 unit) and sign "
-            "preservation are proved for the exact-arithmetic version of to_seconds/from_seconds (C32_roundtrip_partial) and "
-            "from_seconds saturation/sign at the boundary doubles by evaluation of the bit-exact binary64 model "
-            "(C32_from_seconds_boundaries_partial); for all doubles they are only monitored at run time on the swept bit patterns.",
+            "PTP types incl. saturating_div (C32_ptp). On the bit-exact binary64 model, for every 64-bit pattern: from_seconds "
+            "saturates to i64::MAX/MIN for |x| >= 2^31 s and +-inf (C32_from_seconds_saturates) and preserves the sign of every "
+            "finite double, never leaving the i64 range (C32_from_seconds_sign). PARTIAL: the seconds round-trip bound "
+            "(< 1e-9 |d| + 1 unit) is proved for the exact-arithmetic version of to_seconds;from_seconds (C32_roundtrip_partial); "
+            "for the binary64 model it is only monitored at run time on the swept durations (the four roundings are not bounded "
+            "by a theorem).",
     "note": "Trusted: Coq kernel+vm_compute; hand-written models coq/Model/TimeTypes.v, FloatConv.v (binary64 via Coq's SpecFloat "
             "functions, no axioms), TimeRun.v; harnesses in ntp-proto and statime-base + python driver; release semantics of the "
             "harness build. Requires the fix branch fix-c32 (saturating neg/abs/div, PollInterval inc/dec); on the tree without it "
             "the check reports VIOLATION with -NtpDuration(i64::MIN) etc. Division by zero is excluded (reading). Print "
-            "Assumptions: closed under the global context for every theorem.",
+            "Assumptions: closed under the global context for the integer theorems; C32_from_seconds_saturates/_sign use Flocq "
+            "(rounding monotonicity, exactness of integer conversion) and so the standard-library axioms of the classical reals "
+            "(classic, sig_forall_dec, sig_not_dec, functional_extensionality_dep).",
     "design_ref": "DESIGN.md 3 C32",
 }
